@@ -126,7 +126,10 @@ def _oracle_job(pp, job):
                     rec("(expr == s) == parse_all succeeds", s, pall[0] == "ok", eq[1])
                 se = _res(pp, lambda: (fresh() + pp.StringEnd()).parse_string(s).as_list())
                 if uniform_ws and pall[0] in ("ok", "exc") and se[0] in ("ok", "exc"):
-                    if (se[0] == "ok") != (pall[0] == "ok") or (se[0] == "ok" and se[1] != pall[1]):
+                    # the statement equates *success*; tokens are compared with the plain parse above (an And skips
+                    # leading whitespace where a root whose callPreparse is off - SkipTo over alternatives - keeps it
+                    # in its skipped text, so the token lists may legitimately differ)
+                    if (se[0] == "ok") != (pall[0] == "ok"):
                         rec("parse_all == (expr + StringEnd())", s, pall, se, sig="parse_all_vs_stringend_ignorables" if has_ign else None)
                 # --- scan_string ------------------------------------------------------------------------
                 full = _res(pp, lambda: [(t.as_list(), a, b) for t, a, b in root.scan_string(s)])
